@@ -3,7 +3,7 @@ META = dict(
     engine="grid", level="exploration",
     technique="bounded-exhaustive enumeration of inputs against a table-driven reference (no sampling)",
     text="Every byte string up to 2 bytes (3 in thorough) plus all single-bit/all-ones/all-zero messages up to 64 bytes is run through "
-         "crc16 and crc64 and compared with independent table-driven CRC-16/GENIBUS and CRC-64/WE references; the functions are pure and "
+         "crc16 and crc64 (as bytes, and again through ONE bytearray per length rewritten in place between calls) and compared with independent table-driven CRC-16/GENIBUS and CRC-64/WE references; the functions are pure and "
          "bytewise-iterative, so the complete short-string space plus the bit-position family is the natural bounded-exhaustive claim.",
     note="Trusts the reference tables (self-checked against the catalogue check values) and that behaviour on longer strings follows from the per-byte loop.",
 )
@@ -101,6 +101,32 @@ def work(arg):
         p.outcome("crc16 top nibble %x / crc64 top nibble %x" % (exp16 >> 12, e >> 60))
         if p.evaluations % 9973 == 1:
             p.sample(dict(input_hex=m.hex(), crc16=exp16, crc64=list(exp64)))
+    # second pass: the caller REUSES one bytearray, rewriting it in place between calls (a transmit buffer); every call
+    # must checksum the buffer's CURRENT content.  Same inputs, grouped by length, nothing else passes through the
+    # helpers in between.
+    bufs = {}
+    for m in inputs(shard, nshards, tier):
+        if not m or len(m) > 8:
+            continue
+        buf = bufs.setdefault(len(m), bytearray(len(m)))
+        buf[:] = m
+        p.evaluations += 1
+        for name, fn, ref in (("crc16", checking.crc16, ref16), ("crc64", checking.crc64, ref64)):
+            try:
+                got = fn(buf)
+                if name == "crc16":
+                    got = struct.unpack("!H", got)[0] if isinstance(got, (bytes, bytearray)) and len(got) == 2 else got
+                    exp = ref(m)
+                else:
+                    got = tuple(got)
+                    e = ref(m)
+                    exp = (e >> 32, e & 0xFFFFFFFF)
+            except Exception as ex:
+                got, exp = "raised %r" % ex, None
+            if got != exp or bytes(buf) != m:
+                p.violation(name + "-stale-or-mutating-on-reused-buffer", m.hex(),
+                            "%s(bytearray rewritten in place to %s)=%r expected %r (buffer afterwards %s)" % (name, m.hex(), got, exp, bytes(buf).hex()),
+                            dict(func=name, input_hex=m.hex(), got=got, expected=exp, reused_bytearray=True))
     return p
 
 
